@@ -7,6 +7,7 @@ CONSTANTS
     MaxOps = 4
     MaxBlocks = 3
     MaxDepth = 2
+    RecordHist = FALSE
     MaxFail = 0
 PROPERTY EventuallyQuiet
 CHECK_DEADLOCK FALSE
